@@ -211,6 +211,12 @@ class Session:
         self.tss.append(ts)
         return len(self.tss) - 1
 
+    def op_ts_reload_xml(self, o):
+        from cassis import load_typesystem
+        ts = load_typesystem(self.tss[o["ts"]].to_xml())
+        self.tss.append(ts)
+        return len(self.tss) - 1
+
     def op_ts_merge(self, o):
         from cassis import merge_typesystems
         ts = merge_typesystems(*[self.tss[i] for i in o["inputs"]])
@@ -475,6 +481,10 @@ class Session:
         elif alias == "add_all":
             assert o.get("keep_id", True)
             h.add_all([fs])
+        elif alias == "add_all_iter":
+            # `add_all` takes any iterable: a one-shot iterator must work like a list
+            assert o.get("keep_id", True)
+            h.add_all(x for x in [fs])
         elif alias == "add_annotations":
             assert o.get("keep_id", True)
             h.add_annotations([fs])
